@@ -69,11 +69,21 @@ func runFaultHist(c *vrun.Ctx, o envOpts, h faultHist, plan vos.Plan, planDesc s
 				}
 			}
 			pattern += strconv.Itoa(resp.Status) + ","
+			full := string(vnet.Body(name, res.Version, h.size))
 			if !ok {
 				continue
 			}
-			full := string(vnet.Body(name, res.Version, h.size))
 			bad := ""
+			originAborts := strings.HasPrefix(planDesc, "origin-aborts-always")
+			if originAborts {
+				// the origin does not deliver a complete body: an error status or a visibly cut transfer
+				// is all the proxy can give; what it must never give is a 200 that looks complete but is not
+				if resp.Status == 200 && resp.Err == "" && resp.Body != full {
+					c.SetCase(desc)
+					c.Violation("C01/fault/truncated-body-served-as-complete/"+o.Backend+"/"+h.name, fmt.Sprintf("request %d: the origin transfer aborted, yet the client got a 200 that looks complete with %d of %d bytes | %s", i, len(resp.Body), len(full), desc), nil)
+				}
+				continue
+			}
 			switch {
 			case resp.Dropped || (resp.Err != "" && resp.Status == 0):
 				bad = "the client got no response: " + resp.Err
@@ -159,6 +169,25 @@ func scenarioFault(c *vrun.Ctx) {
 					e.origin.Put("/filler", &vnet.Res{Name: "filler", Size: 28, Headers: vnet.H{{"Cache-Control", "max-age=1000"}}})
 					e.do("GET", "/filler", nil, "")
 				})
+			}
+			// the origin transfer aborts after every byte count, once (the retry is healthy) and persistently
+			for b := 0; b < h.size; b++ {
+				for _, mode := range []string{"once", "always"} {
+					if !mine() {
+						continue
+					}
+					c.Case()
+					b, mode := b, mode
+					runFaultHist(c, base, h, vos.NoPlan(), "origin-aborts-"+mode+"-after="+strconv.Itoa(b), func(e *penv) {
+						for _, r := range e.origin.Resources {
+							if mode == "once" {
+								r.AbortOnce, r.AbortOnceSet = b, true
+							} else {
+								r.AbortAfter = b
+							}
+						}
+					})
+				}
 			}
 			if be == "memory" && mine() {
 				c.Case()
